@@ -492,6 +492,13 @@ func (in *Inst) Answer(r *Req, options ...bpmn.DoOption) {
 	in.note("Do.return", fmt.Sprintf("%s#%d", r.Act, r.N))
 }
 
+// MarkAnswered marks a request as answered (for drivers calling Do themselves).
+func (in *Inst) MarkAnswered(r *Req) {
+	in.mu.Lock()
+	r.Answered = true
+	in.mu.Unlock()
+}
+
 // Closed reports whether subscriber idx's channel was closed by the tracer.
 func (in *Inst) Closed(idx int) bool {
 	in.mu.Lock()
